@@ -183,11 +183,11 @@ type c55StrCase struct {
 }
 
 var c55ByteClasses = []*rapid.Generator[byte]{
-	rapid.SampledFrom([]byte("abcxyzABCXYZ0189")),       // alnum tchar
-	rapid.SampledFrom([]byte("!#$%&'*+-.^_`|~")),        // symbol tchar
-	rapid.SampledFrom([]byte("\"(),/:;<=>?@[\\]{} ")),   // separators and SP
+	rapid.SampledFrom([]byte("abcxyzABCXYZ0189")),                          // alnum tchar
+	rapid.SampledFrom([]byte("!#$%&'*+-.^_`|~")),                           // symbol tchar
+	rapid.SampledFrom([]byte("\"(),/:;<=>?@[\\]{} ")),                      // separators and SP
 	rapid.SampledFrom([]byte{0, 1, 8, 9, 10, 11, 12, 13, 14, 27, 31, 127}), // CTL incl. HTAB
-	rapid.ByteRange(0x80, 0xff),                         // obs-text
+	rapid.ByteRange(0x80, 0xff),                                            // obs-text
 	rapid.Byte(),
 }
 
